@@ -42,6 +42,11 @@ def check(repo, res, tier):
     res.rule('C08.A7', 'is_finished true => now >= ast + duration and not already FINISHED')
     res.rule('C08.A8', 'Observation.status is written WAITING (init) -> RUNNING (under WAITING) -> FINISHED (by finish_observation)')
     res.rule('C08.A9', 'telescope_use += demand only in begin_observation, -= demand only in finish_observation')
+    from . import c05
+    from .common import borrow as _borrow
+    res.rule('C08.A10', 'adopted C05.L1: the scheduler-side count of ingest machines promised to admitted observations is '
+                        'released exactly once, when the ingest ends (it is what keeps two admissions of one step under the limit)')
+    _borrow(repo, res, tier, c05, {'C05.L1'}, 'C08.A10')
     res.assumptions += ['"starts exactly on time when idle" and same-step admissions reading stale pools are not decided',
                         'the admission checks read current pool/buffer sizes; data still to come from running ingests is not reserved (DESIGN.md section 6)']
     a1(repo, res, canon, pc, logic)
